@@ -5,6 +5,9 @@
                                              chunk of the output queue; the tty takes some chunks
        if self.frames_pending() > TERMINAL_FRAMES_DROP {      (constant regenerated: Gen/C01Const.v)
            self.frames_drop(); renderer.clear(self)?; }       before the handler draws
+       if event is Resize {                                   AFTER the drop: what clear() issues here
+           renderer.clear(self)?;                             must not be dropped (REVIEW5 B4)
+           renderer = TerminalRenderer::new(self, true)?; }
        action = handler(self, event, renderer.surface())      the application draws
        if action != WaitNoFrame {
            DecModeSet(SynchronizedOutput, on); renderer.frame(self)?; DecModeSet(.., off)
@@ -27,7 +30,9 @@ Record iter := mkiter {
   it_draw : grid cell;       (* what the handler draws *)
   it_action : action;
   it_pending : option nat;   (* the answer of frames_pending(); None: the number of pending chunks *)
-  it_keep : nat }.           (* chunks at the front of the queue that survive frames_drop() *)
+  it_keep : nat;             (* chunks at the front of the queue that survive frames_drop() *)
+  it_resize : bool }.        (* the poll delivers a Resize event; the size is the same and the terminal
+                                keeps its contents (a resize to another size: histories, op Resize) *)
 
 (* ---------- the code side: what is issued in each iteration ---------- *)
 Definition is_nil {A} (l : list A) : bool := match l with [] => true | _ => false end.
@@ -43,12 +48,14 @@ Fixpoint loop_model (o : oracle) (r : rstate) (npend : nat) (its : list iter) : 
       let cc := if drop then fst (rclear r) else [] in
       let r1 := if drop then snd (rclear r) else r in
       let npend2 := if drop then Nat.min (it_keep it) npend1 else npend1 in
-      let r2 := rdraw r1 (it_draw it) in
+      let cc2 := if it_resize it then cc ++ fst (rclear r1) else cc in
+      let r1b := if it_resize it then rnew (rh r1) (rw r1) true else r1 in
+      let r2 := rdraw r1b (it_draw it) in
       match it_action it with
       | AWaitNoFrame =>
-          (drop, cc) :: loop_model o (rskip r2) (if is_nil cc then npend2 else S npend2) its'
+          (drop, cc2) :: loop_model o (rskip r2) (if is_nil cc2 then npend2 else S npend2) its'
       | AWait =>
-          (drop, cc ++ [CSync true] ++ fst (frame o r2) ++ [CSync false])
+          (drop, cc2 ++ [CSync true] ++ fst (frame o r2) ++ [CSync false])
           :: loop_model o (snd (frame o r2)) (S npend2) its'
       end
   end.
@@ -104,7 +111,7 @@ Fixpoint loop_spec (o : oracle) (h w : nat) (strict : bool) (scr : screen) (q : 
       let q2 := if dropped then firstn (it_keep it) q1 else q1 in
       let sp := if dropped then stale_places o h w scr1 q2 last else [] in
       let E1 := if dropped then (if strict then [] else sp) else E in
-      let last1 := if dropped then gmake h w cell_default else last in
+      let last1 := if dropped || it_resize it then gmake h w cell_default else last in
       let '(ok, st) :=
         match it_action it with
         | AWaitNoFrame =>
